@@ -263,3 +263,26 @@ def check_derived_impls(ctx, chk, pid, cfgs, want, floor, what):
                        tn, full, cfg, b["def"], what, "copies" if tn == "Clone" else "comparison"),
                    sample={"type": short, "impl": tn, "derived": True})
         chk.ob(n >= floor, "%s/derived-impls-floor/%d" % (pid, n), "only %d comparison / clone impls of the covered types found [%s]" % (n, cfg))
+
+
+def rot_accessor_summary(f, meth):
+    """RateOfTurn::rate / direction interpreted on every raw value parse() can produce (-127..127):
+    [(raw values, result value)] or None when the method is missing; raises Unanalysable"""
+    from ..interp import Interp, St
+    from ..values import VAdt, VInt, VRef
+    from ..domains import Lin
+    from .. import xform
+    bs = [b for b in f.bodies.values() if b["def"].endswith("::" + meth) and (b.get("impl_self") or "").endswith("RateOfTurn") and not b.get("impl_trait")]
+    if len(bs) != 1:
+        return None
+    b = bs[0]
+    I2 = Interp(f, xform.EXT)
+    st0 = St()
+    atom = ("sym", "self.raw", -127, 127)
+    selft = f.types[b["locals"][1]]
+    adt = selft["def"] if selft["k"] == "adt" else f.types[selft["ty"]]["def"]
+    selfv = VAdt(adt, 0, (VInt(8, True, lin=Lin.atom(atom)),))
+    if selft["k"] == "ref":
+        selfv = VRef(I2.new_cell(st0, selfv), ())
+    outs = I2.exec_fn(st0, b, [selfv])
+    return [(st.aset(atom), rv) for st, rv in outs]
